@@ -26,7 +26,8 @@ def main():
         t0 = time.time()
         signal.alarm(10)
         try:
-            out = impl.run_par(entry, False, "seek", data)
+            e_name, _, e_src = entry.partition(":")
+            out = impl.run_par(e_name, False, e_src or "seek", data)
         except Timeout:
             out = "HANG"
         except MemoryError:
